@@ -289,6 +289,9 @@ class Contract:
 
             if isinstance(k, KFn):
                 env[n] = v
+                # the source text of a callback is available to the contract as <param>_src, so that a
+                # trusted traversal contract can name the filter it was given
+                env[n + "_src"] = StrV(ast.unparse(v.node) if isinstance(v, ClosureV) else getattr(v, "name", "fn"))
                 continue
             if not fits(v, k):
                 raise Unsupported(f"{self.fid}: argument {n} of kind {v.kind!r} does not fit {k!r}")
